@@ -67,12 +67,12 @@ type Tx struct {
 
 // Reason kinds (why the statement forbids accepting a transaction).
 const (
-	RDoubleUse    = "a:double-use"  // outpoint already consumed (earlier input of the tx, earlier tx, earlier block)
-	RMissing      = "a:missing"     // outpoint never existed
-	ROwner        = "b:owner"       // owner address != address of the presented key
-	RLocked       = "b:locked"      // lock height above the current height
-	RSignature    = "b:signature"   // signature not valid for exactly the input keys
-	RValueCreated = "c:value"       // outputs exceed inputs
+	RDoubleUse    = "a:double-use"   // outpoint already consumed (earlier input of the tx, earlier tx, earlier block)
+	RMissing      = "a:missing"      // outpoint never existed
+	ROwner        = "b:owner"        // owner address != address of the presented key
+	RLocked       = "b:locked"       // lock height above the current height
+	RSignature    = "b:signature"    // signature not valid for exactly the input keys
+	RValueCreated = "c:value"        // outputs exceed inputs
 	RDenomination = "d:denomination" // a denomination outside the table
 	RNoInputs     = "e:no-inputs"
 )
